@@ -2,6 +2,7 @@
 From Coq Require Import List String ZArith Bool.
 From GG Require Import Base.Strs Model.Codes Model.IgnoreSet Model.Config Model.GoAst Model.Annots Model.Analyze
                        Extracted Exec Proofs.IgnoreSetProofs Proofs.CodesProofs Proofs.WalkProofs Proofs.CheckerProofs.
+From GG Require Proofs.OpsProofs.
 Import ListNotations.
 Local Open Scope Z_scope.
 Local Open Scope string_scope.
@@ -86,6 +87,19 @@ Proof.
   destruct S; [contradiction|reflexivity].
 Qed.
 
+(* (5) END TO END.  The whole analysis of a package under exclude-checks = S (S non-empty) is the whole analysis without
+   exclude-checks with the matched diagnostics filtered out: the same exported annotations, the same diagnostics in the same
+   order minus exactly those whose code S matches, a failure exactly where the unrestricted run fails - for every program,
+   universe of imported facts and configuration of the other two options.  Input condition (checked on every serialised
+   package): the positions of the file's comments and line starts are >= 1, as go/token hands them out. *)
+Theorem C08_whole_analysis :
+  forall cfg S p all, S <> [] -> OpsProofs.x_pos_ok cfg p = true ->
+    match x_analyze (OpsProofs.with_checks cfg []) p all with
+    | AOk own ds => x_analyze (OpsProofs.with_checks cfg S) p all = AOk own (filter (kept S) ds)
+    | APanic site => x_analyze (OpsProofs.with_checks cfg S) p all = APanic site
+    end.
+Proof. exact OpsProofs.analyze_exclude. Qed.
+
 Example C08_nonvacuous :
   map (excluded ["IMM"; "CTOR02"; "junk"]) ["IMM01"; "IMM04"; "CTOR01"; "CTOR02"; "TONL01"; "junk"]
   = [true; true; false; true; false; true] /\ excluded ["ALL"] "PKGO03" = true /\ excluded ["IM"; "imm"] "IMM01" = false.
@@ -100,3 +114,4 @@ Print Assumptions C08_packageonly.
 Print Assumptions C08_all_excludes_everything.
 Print Assumptions C08_junk_excludes_nothing.
 Print Assumptions C08_config_only_through_suppression.
+Print Assumptions C08_whole_analysis.
